@@ -4,7 +4,6 @@ CONSTANTS
   Family = "nestq"
   MaxDepth = 0
   Depth = 4
-  ProgTab <- MCProgTab
 SPECIFICATION GSpec
 CONSTRAINT EmitBeh
 CHECK_DEADLOCK FALSE
